@@ -156,3 +156,14 @@ add("C04", "E3", "fault_enumeration",
     "the statement is checked, followed by a scan and an append through a fresh handle.",
     "Asynchronous interrupts are placed at storage-call boundaries; close() is modelled as releasing the descriptor even when it reports an error.",
     "DESIGN.md 3 C04")
+add("C03", "E3", "fault_enumeration",
+    "exhaustive crash-point enumeration: the directory tree after every os-level step of every operation, reopened in a fresh process",
+    "The table tree is materialised after every effectful os-level step (mkstemp, write, fsync, close, rename, unlink, flock, "
+    "parquet writer open/close; plus torn variants of the temp parquet file) of create / append / delete / expire / "
+    "delete-snapshot / collect on bases with 0, 1, 3 snapshots, retention, and bases that are themselves crash states "
+    "(thorough: every crash state of 8 operations as the base of a second crash-enumerated operation). Each distinct tree is "
+    "reopened by a freshly spawned process: pre- or post-state (post iff the pointer already carries its final content), "
+    "library and independent reader agree, every retained snapshot readable, follow-up append and two follow-up "
+    "collections succeed and remove only unreachable leftovers.",
+    "Crash granularity is the Python-visible os call; leftovers outside the collector's scope (orphan metadata versions, temp files of a dead pointer write) are counted, not judged.",
+    "DESIGN.md 2.4 E3b, 3 C03")
